@@ -216,7 +216,15 @@ func strs(xs ...string) []any {
 // top-level input and on a block field; in a file such references are only
 // possible on nested components (ValidateFilterRefs rejects them elsewhere).
 func c15Rich(b *c15Base, name, table string, srcs []any, complete, dash bool) map[string]any {
-	bareRef := func() map[string]any { return map[string]any{"table": "t_a", "column": "who"} }
+	// a reference without an integration (table and column only): always in the dashboard submission; in the file
+	// configuration only in every third variant (not in the quick tier's single one), so that a validation which starts to refuse such references inside
+	// tuple components does not take every file lifecycle with it
+	bareRef := func() map[string]any {
+		if dash || b.variant%3 == 1 {
+			return map[string]any{"table": "t_a", "column": "who"}
+		}
+		return c15Ref("ig-a", "t_a", "who")
+	}
 	inner := []any{
 		map[string]any{"name": "x", "type": "bytes32", "column": "d_x", "filter_op": "contains", "filter_ref": c15Ref("ig-a", "t_a", "who")},
 	}
@@ -313,13 +321,15 @@ func c15MakeBase(seed uint64, variant int) *c15Base {
 		"name": "ig-c", "enabled": true, "sources": []any{srcRef("src-a"), srcRef("src-b")},
 		"table": map[string]any{
 			"name":    "t_c",
-			"columns": c15Cols("tx_hash", "bytea", "tx_input", "bytea", "tx_value", "numeric", "spare", "text"),
+			"columns": c15Cols("tx_hash", "bytea", "tx_input", "bytea", "tx_value", "numeric", "spare", "text", "tx_idx", "int"),
 		},
 		"notification": map[string]any{"columns": strs("tx_hash")},
 		"block": []any{
 			map[string]any{"name": "tx_hash", "column": "tx_hash"},
 			map[string]any{"name": "tx_input", "column": "tx_input"},
 			map[string]any{"name": "tx_value", "column": "tx_value", "filter_op": "gt", "filter_arg": strs("0")},
+			// an identity field the user selects himself (nothing else of the configuration names its column)
+			map[string]any{"name": "tx_idx", "column": "tx_idx"},
 		},
 	}
 	igD := map[string]any{
